@@ -47,7 +47,7 @@ func hxb(b []byte) string {
 // cachedSites: the extraction (go list -export + type checking, tens of seconds on a loaded machine) is keyed by the
 // content of every non-test Go file of the analysed packages plus go.mod; a changed file always re-extracts.
 // extractorVersion is part of the cache key: bump it whenever sites.go changes what it lists.
-const extractorVersion = "4-ncpu"
+const extractorVersion = "5-actionmaps"
 
 func cachedSites(repo string) ([]string, error) {
 	h := sha256.New()
@@ -92,9 +92,22 @@ func siteTie() {
 		out.Note("extractor: " + err.Error())
 		return
 	}
+	var real []string
 	for _, s := range sites {
+		if strings.HasPrefix(s, "actionmap ") {
+			f := strings.Fields(s)
+			vals := "-"
+			if len(f) > 3 {
+				vals = f[3]
+			}
+			out.Op("actionmap "+f[1]+" "+f[2]+" "+vals, "injective")
+			out.Stat("action_maps", 1)
+			continue
+		}
+		real = append(real, s)
 		out.Op("site "+s, "listed")
 	}
+	sites = real
 	out.Op(fmt.Sprintf("sitecount %d", len(sites)), "ok")
 	for _, s := range sites {
 		out.Stat("sites_"+strings.SplitN(s, " ", 2)[0], 1)
